@@ -213,25 +213,78 @@ func c14For(c *Ctx, pp string) {
 		}
 		r.Ob("POLL-FN", tag+".ProcExit polls whenever signal != nil and not yet exited", t.Pos(inv.Pos()), len(foreign) == 0, fmt.Sprintf("extra conditions in front of the poll: %v", foreign))
 		// latch on true
+		// a latch: procExit = true, or SetExit() (whose body is that store)
+		isLatch := func(in ssa.Instruction) bool {
+			if s, ok := in.(*ssa.Store); ok {
+				if fa, ok := s.Addr.(*ssa.FieldAddr); ok && fieldName(fa) == "procExit" {
+					if cv, ok := s.Val.(*ssa.Const); ok && cv.Value != nil && cv.Value.ExactString() == "true" {
+						return true
+					}
+				}
+			}
+			if call, ok := in.(*ssa.Call); ok && call.Call.StaticCallee() != nil && call.Call.StaticCallee().Name() == "SetExit" {
+				return true
+			}
+			return false
+		}
 		latched := false
 		if iff, ok := inv.Block().Instrs[len(inv.Block().Instrs)-1].(*ssa.If); ok && iff.Cond == ssa.Value(inv) {
 			for _, in := range inv.Block().Succs[0].Instrs {
-				if s, ok := in.(*ssa.Store); ok {
-					if fa, ok := s.Addr.(*ssa.FieldAddr); ok && fieldName(fa) == "procExit" {
-						if cv, ok := s.Val.(*ssa.Const); ok && cv.Value != nil && cv.Value.ExactString() == "true" {
-							latched = true
-						}
-					}
+				if isLatch(in) {
+					latched = true
 				}
 			}
 		}
 		r.Ob("POLL-FN", tag+".ProcExit latches procExit on a true answer", t.Pos(inv.Pos()), latched, "ExitSignal()==true must set procExit")
+		// every return yields the value the latch has at that point: the field itself; the constant true where the
+		// latch is known set (tested true, or just set in this block); the constant false where it is known clear
+		// (tested false) and the poll did not fire (no signal, or ExitSignal() answered false)
 		retsLatch := true
 		allInstrs(procExit, func(in ssa.Instruction) {
-			if ret, ok := in.(*ssa.Return); ok {
-				if !strings.HasSuffix(path(ret.Results[0]), ".procExit") {
+			ret, ok := in.(*ssa.Return)
+			if !ok {
+				return
+			}
+			v := ret.Results[0]
+			if strings.HasSuffix(path(v), ".procExit") {
+				return
+			}
+			cv, isC := v.(*ssa.Const)
+			if !isC || cv.Value == nil {
+				retsLatch = false
+				return
+			}
+			flagTrue, flagFalse, noFire := false, false, false
+			for _, ec := range controlling(ret.Block()) {
+				cs := condStr(ec.Cond)
+				switch {
+				case strings.HasSuffix(cs, ".procExit") && !strings.HasPrefix(cs, "!"):
+					flagTrue, flagFalse = flagTrue || ec.Pol, flagFalse || !ec.Pol
+				case strings.HasPrefix(cs, "!") && strings.HasSuffix(cs, ".procExit"):
+					flagTrue, flagFalse = flagTrue || !ec.Pol, flagFalse || ec.Pol
+				case ec.Cond == ssa.Value(inv) && !ec.Pol:
+					noFire = true
+				case strings.Contains(ec.String(), ".signal == nil") && ec.Pol, strings.Contains(ec.String(), ".signal != nil") && !ec.Pol:
+					noFire = true
+				}
+			}
+			setHere := false
+			for _, i2 := range ret.Block().Instrs {
+				if isLatch(i2) {
+					setHere = true
+				}
+			}
+			switch cv.Value.ExactString() {
+			case "true":
+				if !flagTrue && !setHere {
 					retsLatch = false
 				}
+			case "false":
+				if !(flagFalse && noFire) || setHere {
+					retsLatch = false
+				}
+			default:
+				retsLatch = false
 			}
 		})
 		r.Ob("POLL-FN", tag+".ProcExit returns the latch", t.Pos(procExit.Pos()), retsLatch, "must return ctx.procExit")
@@ -248,7 +301,13 @@ func c14For(c *Ctx, pp string) {
 		if pe != nil && len(controlling(pe.Block())) == 0 {
 			// on the true edge of pe, all returns are `true`
 			if iff, isIf := pe.Block().Instrs[len(pe.Block().Instrs)-1].(*ssa.If); isIf && iff.Cond == ssa.Value(pe) {
-				ok = allReturnsConst(pe.Block().Succs[0], "true", map[*ssa.BasicBlock]bool{})
+				ok = returnsTrueFrom(pe.Block(), pe.Block().Succs[0], map[*ssa.BasicBlock]bool{})
+			}
+			// `return ctx.ProcExit() && …` would not propagate; `return ctx.ProcExit()` alone does
+			for _, ref := range *pe.Referrers() {
+				if ret, isR := ref.(*ssa.Return); isR && ret.Results[0] == ssa.Value(pe) {
+					ok = true
+				}
 			}
 		}
 		r.Ob("POLL-FN", tag+".StmtRetrun polls ProcExit first and returns true when it is true", t.Pos(stmtRet.Pos()), ok, "StmtRetrun must call ProcExit unconditionally and propagate a true answer")
@@ -260,6 +319,52 @@ func c14For(c *Ctx, pp string) {
 		if f := pk.Func(n); f != nil {
 			evalFns[f] = true
 		}
+	}
+	// a poll is StmtRetrun()/ProcExit() or a boolean helper of the package every return of which is the constant true
+	// or the answer of such a poll (e.g. `if forbreak(ctx) { return true }; …; return ctx.StmtRetrun()`): its true
+	// answer covers the poll's
+	pollMemo := map[*ssa.Function]bool{}
+	var isPollFn func(h *ssa.Function) bool
+	isPollFn = func(h *ssa.Function) bool {
+		if h == nil {
+			return false
+		}
+		if h == stmtRet || h == procExit {
+			return true
+		}
+		if v, ok := pollMemo[h]; ok {
+			return v
+		}
+		pollMemo[h] = false
+		if h.Pkg != pk || len(h.Blocks) == 0 || h.Signature.Results().Len() != 1 || h.Signature.Results().At(0).Type().String() != "bool" {
+			return false
+		}
+		okAll, polls := true, 0
+		allInstrs(h, func(in ssa.Instruction) {
+			ret, isR := in.(*ssa.Return)
+			if !isR || ret.Block() == h.Recover {
+				return
+			}
+			switch v := ret.Results[0].(type) {
+			case *ssa.Const:
+				if v.Value == nil || v.Value.ExactString() != "true" {
+					okAll = false
+				}
+			case *ssa.Call:
+				if isPollFn(v.Call.StaticCallee()) {
+					polls++
+				} else {
+					okAll = false
+				}
+			default:
+				okAll = false
+			}
+		})
+		pollMemo[h] = okAll && polls > 0
+		if pollMemo[h] {
+			r.Fn(relName(h))
+		}
+		return pollMemo[h]
 	}
 	for _, name := range []string{"RunStmts", "RunForStmt", "RunForInStmt"} {
 		fn := pk.Func(name)
@@ -280,7 +385,7 @@ func c14For(c *Ctx, pp string) {
 			for b := range l.Blocks {
 				for _, in := range b.Instrs {
 					call, ok := in.(*ssa.Call)
-					if !ok || (call.Call.StaticCallee() != stmtRet && call.Call.StaticCallee() != procExit) {
+					if !ok || !isPollFn(call.Call.StaticCallee()) {
 						continue
 					}
 					iff, isIf := b.Instrs[len(b.Instrs)-1].(*ssa.If)
@@ -327,7 +432,7 @@ func c14For(c *Ctx, pp string) {
 			if name != "RunStmts" {
 				isPoll := func(in ssa.Instruction) bool {
 					call, ok := in.(*ssa.Call)
-					if !ok || (call.Call.StaticCallee() != stmtRet && call.Call.StaticCallee() != procExit) {
+					if !ok || !isPollFn(call.Call.StaticCallee()) {
 						return false
 					}
 					b := call.Block()
@@ -370,6 +475,41 @@ func c14For(c *Ctx, pp string) {
 			r.Ob("POLL-EXIT-SUCCESS", key, t.Pos(poll.Pos()), okExit, "after the poll reports true the executor must return success without evaluating anything else"+why)
 		}
 	}
+}
+
+// returnsTrueFrom: every path from the edge prev->b reaches a return whose value is true: the constant, or a phi
+// whose incoming value over the edge just taken is the constant true (`return a() || b`).
+func returnsTrueFrom(prev, b *ssa.BasicBlock, seen map[*ssa.BasicBlock]bool) bool {
+	if seen[b] {
+		return true
+	}
+	seen[b] = true
+	if ret, ok := b.Instrs[len(b.Instrs)-1].(*ssa.Return); ok {
+		switch v := ret.Results[0].(type) {
+		case *ssa.Const:
+			return v.Value != nil && v.Value.ExactString() == "true"
+		case *ssa.Phi:
+			if v.Block() != b {
+				return false
+			}
+			for i, p := range b.Preds {
+				if p == prev {
+					cv, isC := v.Edges[i].(*ssa.Const)
+					if !isC || cv.Value == nil || cv.Value.ExactString() != "true" {
+						return false
+					}
+				}
+			}
+			return true
+		}
+		return false
+	}
+	for _, s := range b.Succs {
+		if !returnsTrueFrom(b, s, seen) {
+			return false
+		}
+	}
+	return len(b.Succs) > 0
 }
 
 func allReturnsConst(b *ssa.BasicBlock, val string, seen map[*ssa.BasicBlock]bool) bool {
